@@ -85,18 +85,20 @@ func runC01(p *Prog, r *Report, tier string) {
 	iter := []guardRow{
 		{"iteration/recovery-ok", []Atom{A("(ECR#1 == nil)")}, backJumps},
 		{"iteration/strictly-increasing-signer-address", []Atom{A("(nil == LASTX)"), A("(nil == LASTY)"), A("(bytes.Compare(ADDRLAST,ADDRREC) < 0)")}, backJumps},
-		{"iteration/signer-is-enabled-attester", []Atom{A("bytes.Equal(ethcommon.FromHex(p2[#j0].Attester),ECR#0)")}, backJumps},
+		{"iteration/signer-is-enabled-attester", []Atom{A("bytes.Equal(ethcommon.FromHex(p2[#j0].Attester),ECR#0)"), A("bytes.Equal(ethcommon.FromHex(p2[#^i0].Attester),ECR#0)")}, backJumps},
 	}
 	for _, g := range iter {
 		c.requireCutFrom("G-cut", g.name, body, g.guard, g.scope)
 		c.requireFailArm("G-fail", g.name, g.guard, false)
 	}
-	rejects = append(rejects, A("!(ECR#1 == nil)"), A("!(bytes.Compare(ADDRLAST,ADDRREC) < 0)"), A("!phi(false|true)"))
+	rejects = append(rejects, A("!(ECR#1 == nil)"), A("!(bytes.Compare(ADDRLAST,ADDRREC) < 0)"), A("!phi(false|true)"),
+		// the membership scan ran to its end without a match (jump-threaded through the `contains` flag)
+		A("!(#j0 < len(p2))"), A("!(#^i0 < len(p2))"))
 	c.exact("G-exact", rejects)
 	// membership ranges over the whole attester slice
 	whole := false
 	for _, ii := range c.ifs {
-		if ii.atom.Key == "(#j0 < len(p2))" {
+		if ii.atom.Key == "(#j0 < len(p2))" || ii.atom.Key == "(#^i0 < len(p2))" {
 			whole = true
 		}
 	}
